@@ -77,7 +77,7 @@ def scratch_dir():
     return os.path.dirname(os.path.dirname(os.path.dirname(os.path.realpath(Crypto.__file__))))
 
 
-def run_child(workdir, job, wall_limit):
+def run_child(workdir, job, wall_limit, fast=True):
     """-> (returncode or None on timeout, result dict or None)"""
     for f in os.listdir(workdir):
         os.unlink(os.path.join(workdir, f))
@@ -89,7 +89,9 @@ def run_child(workdir, job, wall_limit):
     env = dict(os.environ)
     env["LD_PRELOAD"] = asan_runtime()
     env["PYTHONMALLOC"] = "malloc"
-    env["ASAN_OPTIONS"] = ASAN_BASE + ":log_path=" + os.path.join(workdir, "asan")
+    # malloc_context_size=0: no allocation/free stack traces (Python allocates constantly; 2x faster); the stack of
+    # the offending ACCESS, which is all the verdict uses, is unaffected.  Replays keep the full context.
+    env["ASAN_OPTIONS"] = ASAN_BASE + (":malloc_context_size=0" if fast else "") + ":log_path=" + os.path.join(workdir, "asan")
     env["PYTHONPATH"] = os.path.join(scratch_dir(), "lib") + os.pathsep + VERIF
     with open(os.path.join(workdir, "out"), "w") as of:
         try:
@@ -498,7 +500,7 @@ def replay(case, acc):
     workdir = tempfile.mkdtemp(prefix="c17r", dir=scratch_dir())
     try:
         job = {"seed": seed, "tier": tier, "deep": deep, "shard": None, "cases": [_unbig(c)], "start": 0, "skip": []}
-        rc, res = run_child(workdir, job, 900)
+        rc, res = run_child(workdir, job, 900, fast=False)
         if res is None:
             idx = read_progress(workdir)
             if idx != 0:
